@@ -239,11 +239,4 @@ def _build(b, ns, d, label, wants):
     v = _value(b, t['type'], label, wants, in_union=True)
     if v is None:
         return None
-    tt = t['type']
-    if v == ('lit', None) and tt[0] == 'nullable' and tt[1][0] == 'ref':
-        target = idx.get(tt[1][1], tt[1][2])
-        if target['k'] == 'struct' and not target.get('subtypes'):
-            # `tag = null` for a nullable plain-struct member crashes the example pass
-            # (TypeError in Union._compute_example, reported by C03) -> not generated
-            return None
     return {'label': label, 'doc': doc, 'fields': [(t['name'], v)]}
